@@ -82,6 +82,7 @@ def tla_cfg(sc, status_texts=None):
         drv["port"] = sc["driver"].get("port", 44818)
     cfg = {"k": "cfg", "target": tgt, "driver": drv, "has_project": 1 if sc.get("project") else 0}
     cfg["status_texts"] = status_texts or []
+    cfg["ext_texts"] = ext_texts()
     from pycomm3.cip import EXTERNAL_ACCESS
     cfg["access_texts"] = [[k, cps(v)] for k, v in EXTERNAL_ACCESS.items() if isinstance(k, int)]
     cfg["fw"] = (sc["target"].get("identity") or {}).get("rev_major", 0)
@@ -134,6 +135,19 @@ def _worker(sc):
         return {"id": sc["id"], "error": "%s: %s\n%s" % (type(ex).__name__, ex, traceback.format_exc()[-1500:])}
 
 
+_EXT = None
+
+
+def ext_texts():
+    """(general status, extended status) pairs the library has a text for: [[status, ext, text]] (data exported from the code)."""
+    global _EXT
+    if _EXT is None:
+        from pycomm3.cip import EXTEND_CODES
+        _EXT = [[st, ext, cps(t)] for st, exts in sorted(EXTEND_CODES.items()) if isinstance(st, int) and 0 <= st <= 255
+                for ext, t in sorted(exts.items()) if isinstance(ext, int) and 0 <= ext <= 0xFFFF and isinstance(t, str)]
+    return _EXT
+
+
 def status_texts():
     from pycomm3.cip import SERVICE_STATUS
     return [[k, cps(v)] for k, v in sorted(SERVICE_STATUS.items()) if isinstance(k, int) and 0 <= k <= 255]
@@ -155,6 +169,7 @@ def run_all(ctx, scenarios, tag, procs=14, shard_bytes=5_000_000, shard_traces=6
         check_shape(sc["id"], tr["events"][1:])
         evs = [tla_cfg(sc, texts)] + [slim_event(e) for e in tr["events"][1:]]
         docs.append(json.dumps({"id": sc["id"], "events": evs}))
+    shard_traces = min(shard_traces, max(1, -(-len(docs) // procs)))          # enough shards to keep every TLC process busy
     shards, cur, size = [], [], 0
     for i, d in enumerate(docs):
         if cur and (size + len(d) > shard_bytes or len(cur) >= shard_traces):
